@@ -362,6 +362,14 @@ static Family adversary_family(const std::string &tier)
     c.preamble       = { { EV_REQ, 0, 0 }, { EV_REPLY, 0, RK_CK_VALID }, { EV_IO, 0, 0 }, { EV_ADVANCE, 86401000, 0 } };
     f.cfgs.push_back(c);
   }
+  {
+    // non-initial start: the server proved cookie support, then the local address changed (the next request goes out
+    // from another source address with a fresh client cookie): the server still supports cookies
+    Cfg c            = cfg("1srv-edns-from-proven-then-source-address-changed", 1, 2, ARES_FLAG_EDNS);
+    c.qcache_max_ttl = 0;
+    c.preamble       = { { EV_REQ, 0, 0 }, { EV_REPLY, 0, RK_CK_VALID }, { EV_IO, 0, 0 }, { EV_SRCADDR, 1, 0 } };
+    f.cfgs.push_back(c);
+  }
   f.reqs       = life_reqs();
   f.req_menu   = { 0, 18 };
   f.req_repeat = true;
